@@ -189,13 +189,28 @@ func (client *OpenIDConnectClientConfig) CanRedirectToURL(redirectUrl string) (b
 	}
 	matchedDomain := false
 	for _, domain := range client.AllowedRedirectDomains {
-		matched := strings.HasSuffix(parsedURL.Hostname(), domain)
+		matched := hostnameInDomain(parsedURL.Hostname(), domain)
 		if matched {
 			matchedDomain = true
 			break
 		}
 	}
 	return matchedDomain && matchedRE, parsedURL, nil
+}
+
+// hostnameInDomain returns true if the hostname is the domain itself or a
+// subdomain of it. A suffix match is only valid on a label (dot) boundary.
+func hostnameInDomain(hostname, domain string) bool {
+	if domain == "" {
+		return false
+	}
+	if hostname == domain {
+		return true
+	}
+	if strings.HasPrefix(domain, ".") {
+		return strings.HasSuffix(hostname, domain)
+	}
+	return strings.HasSuffix(hostname, "."+domain)
 }
 
 func (client *OpenIDConnectClientConfig) CorsOriginAllowed(origin string) (bool, error) {
@@ -208,7 +223,7 @@ func (client *OpenIDConnectClientConfig) CorsOriginAllowed(origin string) (bool,
 		return false, nil
 	}
 	for _, domain := range client.AllowedRedirectDomains {
-		matched := strings.HasSuffix(parsedURL.Hostname(), domain)
+		matched := hostnameInDomain(parsedURL.Hostname(), domain)
 		if matched {
 			return true, nil
 		}
@@ -240,7 +255,7 @@ func (state *RuntimeState) idpOpenIDCGenericIsCorsOriginAllowed(origin string) (
 	}
 	for _, client := range state.Config.OpenIDConnectIDP.Client {
 		for _, domain := range client.AllowedRedirectDomains {
-			matched := strings.HasSuffix(parsedURL.Hostname(), domain)
+			matched := hostnameInDomain(parsedURL.Hostname(), domain)
 			if matched {
 				return true, nil
 			}
